@@ -11,3 +11,6 @@ pub mod common;
 pub use crate::receiver::{MessageHandler, Receiver, Writer};
 pub use crate::reliable_sender::{CancelHandler, ReliableSender};
 pub use crate::simple_sender::SimpleSender;
+
+#[cfg(feature = "hotstuff_verif")]
+pub mod verif;
